@@ -4,7 +4,7 @@
  * turnstile, gate (broadcast), ping-pong.
  * Rules checked on every wait return (mutex held): holder witness; a wake-up
  * has a cause issued after the wait began (sigs > gen).
- * args: seed= progs= nw= pattern=(0 any,1 bb,2 turnstile,3 gate,4 pingpong)
+ * args: seed= progs= nw= pattern=(0 any,1 bb,2 turnstile,3 gate,4 pingpong,5 token release)
  */
 #ifndef _GNU_SOURCE
 #define _GNU_SOURCE
@@ -217,6 +217,83 @@ static long run_gate(hk_rng_t * r) {
   return (long)gt.N * gt.rounds;
 }
 
+/* ---------------------------------------------------------------- token release: signals issued after unlock, racing each other */
+static struct { hmx_t x; hcv_t cv, done, parked; int W, S, rounds; volatile long tokens, returned, round; _Atomic int go; } tk;
+static void * tk_waiter(void * a_) {
+  hkm_targ_t * a = (hkm_targ_t *)a_;
+  (void)a;
+  L(&tk.x);
+  for (;;) {
+    /* park unconditionally: every return from this wait must have its own signal (or the final broadcast);
+       a waiter that is woken takes at most one token, so a lost signal cannot be covered up by another waiter */
+    if (tk.cv.nwaiting + 1 == tk.W) S(&tk.parked);
+    W(&tk.cv, &tk.x);
+    if (tk.round < 0) break;
+    tk.returned++;
+    if (tk.tokens > 0) tk.tokens--;
+    S(&tk.done);
+  }
+  U(&tk.x);
+  return 0;
+}
+static void * tk_signaler(void * a_) {
+  hkm_targ_t * a = (hkm_targ_t *)a_;
+  hk_rng_t r; hk_rng_seed(&r, a->rseed, 6);
+  L(&tk.x);
+  tk.tokens++;
+  tk.cv.sigs++;
+  U(&tk.x);
+  /* line up with the other signalers so that the signals, issued after the unlock, hit the condition together */
+  atomic_fetch_add(&tk.go, 1);
+  long spins = 0;
+  while (atomic_load(&tk.go) < tk.S && ++spins < 400000) { if ((spins & 63) == 0) myth_yield(); }
+  if (hk_below(&r, 2)) hk_work((unsigned)hk_below(&r, 300));
+  myth_cond_signal(&tk.cv.c);
+  atomic_fetch_add(&g_signals, 1); atomic_fetch_add(&g_signal_outside, 1);
+  return 0;
+}
+static long run_tokens(hk_rng_t * r) {
+  mx_init(&tk.x); cv_init(&tk.cv); cv_init(&tk.done); cv_init(&tk.parked);
+  tk.cv.loose = 1;
+  tk.W = 2 + (int)hk_below(r, 12); tk.rounds = 20 + (int)hk_below(r, 200);
+  tk.tokens = 0; tk.returned = 0; tk.round = 0;
+  int i, k;
+  hkm_targ_t * wa = (hkm_targ_t *)calloc((size_t)tk.W, sizeof(hkm_targ_t));
+  myth_thread_t * wid = (myth_thread_t *)calloc((size_t)tk.W, sizeof(myth_thread_t));
+  for (i = 0; i < tk.W; i++) { wa[i].idx = i; wid[i] = myth_create(tk_waiter, &wa[i]); }
+  long released = 0;
+  for (k = 0; k < tk.rounds; k++) {
+    /* every waiter is inside wait (it holds no mutex there) */
+    L(&tk.x);
+    while (tk.cv.nwaiting < tk.W) W(&tk.parked, &tk.x);
+    tk.returned = 0;
+    tk.S = 1 + (int)hk_below(r, (uint64_t)(tk.W < 6 ? tk.W : 6));
+    atomic_store(&tk.go, 0);
+    U(&tk.x);
+    hkm_targ_t sa[8];
+    myth_thread_t sid[8];
+    memset(sa, 0, sizeof(sa));
+    for (i = 0; i < tk.S; i++) {
+      /* parent-first: all signalers exist at once and are picked up by idle workers */
+      myth_thread_attr_t at; myth_thread_attr_init(&at); at.child_first = 0;
+      sa[i].idx = i; sa[i].rseed = hk_rand(r); myth_create_ex(&sid[i], &at, tk_signaler, &sa[i]);
+    }
+    for (i = 0; i < tk.S; i++) myth_join(sid[i], 0);
+    /* S signals were issued, each after its token was published and with >= S threads blocked: S waiters must come back.
+       the master blocks here, so a lost wake-up leaves every worker idle (logical deadlock) */
+    L(&tk.x);
+    while (tk.returned < tk.S) W(&tk.done, &tk.x);
+    HK_CHECK(tk.returned == tk.S && tk.tokens == 0, "cond:signal-count", "round %d: %ld waiters resumed for %d signals, %ld tokens left", k, tk.returned, tk.S, tk.tokens);
+    U(&tk.x);
+    released += tk.S;
+  }
+  L(&tk.x); tk.round = -1; B(&tk.cv); U(&tk.x);
+  for (i = 0; i < tk.W; i++) myth_join(wid[i], 0);
+  free(wa); free(wid);
+  hk_sample("token release: %d waiters, %d rounds of 1-6 signalers each doing lock; publish; unlock; signal at the same moment", tk.W, tk.rounds);
+  return released;
+}
+
 /* ---------------------------------------------------------------- ping-pong */
 static struct { hmx_t x; hcv_t cv; volatile int whose; int rounds; volatile long count; } pp;
 static void * pp_thread(void * a_) {
@@ -253,12 +330,13 @@ int main(int argc, char ** argv) {
   int pattern = (int)hk_arg("pattern", 0);
   hkm_setup();
   long handoffs = 0;
-  int p, cnt[5] = { 0, 0, 0, 0, 0 };
+  int p, cnt[6] = { 0, 0, 0, 0, 0, 0 };
   for (p = 0; p < progs; p++) {
     hk_rng_t r; hk_rng_seed(&r, seed, (uint64_t)p);
-    int pt = pattern ? pattern : 1 + (int)hk_below(&r, 4);
+    int pt = pattern ? pattern : 1 + (int)hk_below(&r, 5);
     cnt[pt]++;
     switch (pt) {
+    case 5: handoffs += run_tokens(&r); break;
     case 1: handoffs += run_bb(&r); break;
     case 2: handoffs += run_turnstile(&r); break;
     case 3: handoffs += run_gate(&r); break;
@@ -270,6 +348,7 @@ int main(int argc, char ** argv) {
   hk_report("turnstile_programs", cnt[2]);
   hk_report("gate_programs", cnt[3]);
   hk_report("pingpong_programs", cnt[4]);
+  hk_report("token_release_programs", cnt[5]);
   hk_report("handoffs", handoffs);
   hk_report("waits_returned", atomic_load(&g_waits));
   hk_report("signals", atomic_load(&g_signals));
